@@ -34,6 +34,20 @@ MUTS = [
     ("C02", "c03files:run_compaction", "src/raft/filestore/raftlog/mod.rs", "                item.log_range.split_off_index = split_off_index;\n", "", "s02_8_compaction_pointer_catalogue"),
     ("C05", "c05store", "src/raft/filestore/core.rs", "            voted_for: hs.voted_for.unwrap_or_default(),", "            voted_for: if hs.current_term > 0 { hs.voted_for.unwrap_or_default() } else { 0 },", "s05_4_filestore_hard_state"),
     ("C07", "c07cfg", "src/config/core.rs", "        if let Some(history_table_id) = param.history_table_id {\n            self.sequence.set_valid_last_id(history_table_id);\n        }\n", "", "s07_config_component_paths"),
+    # rounds 12 - 14
+    ("C16", "c16cache", "src/cache/core.rs", "            self.set_value(set_info.key, set_info.value, set_info.ttl + set_info.now)", "            self.set_value(set_info.key, set_info.value, set_info.ttl + now_second_i32())", "s16_7_session_deadline"),
+    ("C09", "c09search", "src/openapi/config/api.rs", "            group: self.group.map(Arc::new),\n            data_id: self.data_id.map(Arc::new),", "            like_group: self.group,\n            data_id: self.data_id.map(Arc::new),", "s09_6_search_parameters"),
+    ("C09", "c09grpc", "src/grpc/handler/config_query.rs", "            &ConfigUtils::default_tenant(request.tenant),", "            &request.tenant,", "s09_7_grpc_keys"),
+    ("C12", "c12query", "src/naming/core.rs", "                service.get_instance_list(cluster_names, false, true),\n                Some(service.get_metadata()),\n                only_healthy,", "                service.get_instance_list(cluster_names, false, false),\n                Some(service.get_metadata()),\n                only_healthy,", "s12_3_query_protection_threshold"),
+    ("C01", "c01naming", "src/naming/model.rs", "            enabled: instance_do.enabled,\n            healthy: instance_do.healthy,", "            enabled: true,\n            healthy: instance_do.healthy,", "s01_6_naming_snapshot_roundtrip"),
+    ("C01", "c01table", "src/raft/db/table.rs", "        for table_info in self.table_map.values() {\n            for (key, value) in &table_info.table_data {\n                let record = SnapshotRecordDto {\n                    tree: table_info.name.clone(),\n                    key: key.to_owned(),\n                    value: value.to_owned(),", "        for table_info in self.table_map.values() {\n            for (key, value) in &table_info.table_data {\n                let record = SnapshotRecordDto {\n                    tree: table_info.name.clone(),\n                    key: value.to_owned(),\n                    value: value.to_owned(),", "s01_7_user_table_snapshot_roundtrip"),
+    ("C20", "c20meta", "src/naming/instance_meta_repository.rs", "        let mut data_buf = vec![0u8; 1024];\n        let mut records = Vec::new();\n        let read_len = file.read(&mut data_buf).await?;", "        let mut data_buf = vec![0u8; 1024];\n        let mut records = Vec::new();\n        let read_len = file.read(&mut data_buf[..1000]).await?;", "s20_7_metadata_files"),
+    ("C07", "c07mcp", "src/mcp/utils.rs", "            } else {\n                tool_spec_map.remove(&version);\n            }", "            }", "s07_mcp_component_paths"),
+    ("C07", "c07mcp", "src/mcp/core.rs", "        self.tool_spec_version_ref_map = tool_spec_version_ref_map;\n        self.sync_tool_spec_ref_count();", "        self.tool_spec_version_ref_map = tool_spec_version_ref_map;", "s07_mcp_component_paths"),
+    ("C19", "c19mgr", "src/sequence/mod.rs", "                if let Some(v) = self.seq_map.get_mut(&key) {\n                    v.apply_range(start, len);\n                    v.clear_apply_mark();\n                }", "                if let Some(v) = self.seq_map.get_mut(&key) {\n                    v.clear_apply_mark();\n                    v.apply_range(start - 1, len);\n                }", "s19_7_sequence_manager"),
+    ("C18", "c18key", "src/config/core.rs", "        if !param_utils::is_valid(self.group.as_str()) {", "        if !param_utils::is_valid(self.data_id.as_str()) {", "s18_5_composed_key"),
+    ("C18", "c18sites", "src/console/v2/config_api.rs", "    if let Err(e) = config_key.is_valid() {\n        return HttpResponse::Ok().json(ApiResult::<()>::error(\n            ERROR_CODE_SYSTEM_ERROR.to_string(),\n            Some(e.to_string()),\n        ));\n    }\n    let req = DelConfigReq::new(config_key);", "    let req = DelConfigReq::new(config_key);", "s18_4_handler_call_sites"),
+    ("C13", "c11:run_c13", "src/naming/service.rs", "                    .add(instance.last_modified_millis as u64, key.clone());\n                self.instances.insert(key, Arc::new(instance));", "                    .add(instance.register_time as u64, key.clone());\n                self.instances.insert(key, Arc::new(instance));", "s13_expiry"),
 ]
 
 
